@@ -24,7 +24,10 @@ def run(tier):
                            "UnpairedCoveredOnce on the pairless structure", negative_control=True)
         ex = ss.gen_matchings(t["maxn"], sc)
         rnd = [c for c in ss.random_cases(t["rnd"], lib.seed() + 2, tag="e") if ss.max_component(c["pairs"])[0] <= 10]
-        cases = ex + rnd
+        # ladders of 5-8 mutually crossing stems, every stem >= 3 pairs long: stems drawn with LETTER brackets
+        # (pseudoknot order >= 5) that are long enough to be structural elements of their own
+        cliques = ss.clique_cases(tag="eq") + ss.clique_cases(tag="eq3", lens_list=ss.LONG_CLIQUES)
+        cases = ex + rnd + cliques
         rec = lib.pmap(ss.record_elements, cases)
         domain_check([c for c in rec if c["id"].startswith("m")], t["maxn"], sc)
         import random
@@ -41,7 +44,8 @@ def run(tier):
         cov = rep.cov
         cov["exhaustive"] = True
         cov["rule"] = (f"every matching on 1..n, n<={t['maxn']} ({len(ex)}; TLC Gen_SecStruct, domain re-checked) + "
-                       f"{len(rnd)} seeded random nested/knotted structures n in 10..120 + motif_extractor.main on "
+                       f"{len(rnd)} seeded random nested/knotted structures n in 10..120 + {len(cliques)} ladders of 5-8 mutually "
+                       f"crossing stems (letter brackets; stems of >= 3 pairs) + motif_extractor.main on "
                        f"{len(sample)} of them. Non-trivial = distinct structure with >= 2 stems.")
         cov["distinct_nontrivial"] = len({(c["n"], tuple(map(tuple, c["pairs"]))) for c in cases
                                           if len(ss.stems_of(c["pairs"])) >= 2})
